@@ -2,7 +2,10 @@ package props
 
 import (
 	"encoding/base64"
+	"encoding/json"
+
 	"fmt"
+	"github.com/cosmos/cosmos-sdk/codec"
 	"strings"
 
 	"github.com/btcsuite/btcutil/base58"
@@ -422,4 +425,37 @@ func (g *G) genDidTx() *world.TxStep {
 		note += nt + ";"
 	}
 	return g.wrapTx(msgs, note, true)
+}
+
+// genDidGenesis draws a did genesis section that passes the module's genesis validation and
+// in which several map keys may carry documents about the SAME identifier (the validation
+// does not tie the key to the document id), plus tombstones.
+func (g *G) genDidGenesis(cdc codec.JSONCodec, keys []world.DIDKey) json.RawMessage {
+	gs := &didtypes.GenesisState{Documents: map[string]*didtypes.DIDDocumentWithSeq{}}
+	var dids []string
+	for _, k := range keys {
+		dids = append(dids, k.DID())
+	}
+	n := 2 + g.intn("gen-dids", 5)
+	for i := 0; i < n; i++ {
+		key := pick(g, "gen-did-key", dids)
+		about := key
+		if g.chance("gen-doc-about-other", 45) {
+			about = pick(g, "gen-doc-about", dids)
+		}
+		if g.chance("gen-tombstone", 15) {
+			gs.Documents[key] = &didtypes.DIDDocumentWithSeq{Document: &didtypes.DIDDocument{}, Sequence: uint64(1 + g.intn("gen-seq", 3))}
+			continue
+		}
+		saved := g.W
+		g.W = &world.World{Keys: keys}
+		doc := g.genDoc(about, []int{g.intn("gen-auth", 6)})
+		g.W = saved
+		gs.Documents[key] = &didtypes.DIDDocumentWithSeq{Document: doc, Sequence: uint64(g.intn("gen-seq", 3))}
+	}
+	bz, err := cdc.MarshalJSON(gs)
+	if err != nil {
+		panic(err)
+	}
+	return bz
 }
